@@ -109,4 +109,21 @@ def refUnitInSI : List (List Char × Rat) := [
   (['E', 'h', '/', 'K'], 2721138602/100000000 * (9648533289/100000)),
   (['H', 'a', '/', 'K'], 2721138602/100000000 * (9648533289/100000))]
 
+/-- Standard entropy of the elements in their reference state at 298.15 K, per mole of atoms, in J/(mol·K)
+(CODATA key values / NIST-JANAF: ½S°(H₂) = ½·130.680, B 5.90, C graphite 5.74, ½S°(N₂) = ½·191.609,
+½S°(O₂) = ½·205.152, ½S°(F₂) = ½·202.791, Si 18.81, P white 41.09, S rhombic 32.054, ½S°(Cl₂) = ½·223.081,
+½S°(Br₂,l) = ½·152.21, Ru 28.53, Pt 41.63): the elements the shipped schemes can decompose. -/
+def refEntropy : List (Nat × Rat) := [
+  (1, 65340/1000), (5, 590/100), (6, 574/100), (7, 958045/10000), (8, 102576/1000), (9, 1013955/10000),
+  (14, 1881/100), (15, 4109/100), (16, 32054/1000), (17, 1115405/10000), (35, 76105/1000), (44, 2853/100), (78, 4163/100)]
+
+/-- element symbols of `refEntropy` (for the agreement of the two key spaces of `S_elements`) -/
+def refSymbols : List (List Char × Nat) := [
+  (['H'], 1), (['B'], 5), (['C'], 6), (['N'], 7), (['O'], 8), (['F'], 9), (['S','i'], 14), (['P'], 15), (['S'], 16),
+  (['C','l'], 17), (['B','r'], 35), (['R','u'], 44), (['P','t'], 78)]
+
+/-- the energy units the documentation of the dimensional getters names -/
+def docEnergyUnits : List (List Char) := [
+  ['J','/','m','o','l'], ['k','J','/','m','o','l'], ['c','a','l','/','m','o','l'], ['k','c','a','l','/','m','o','l'], ['e','V']]
+
 end PGA.Estimate
